@@ -135,6 +135,62 @@ def add_root_mutations(rng, ts, k=None):
     return tables.tree_sequence()
 
 
+EXOTIC_KINDS = ("extra_flags", "permute_nodes", "root_mutations", "monomorphic_sites", "unknown_mutation_times",
+                "states", "populations")
+
+
+def exotic(rng, ts, kinds=None, p=0.3):
+    """Valid-but-unusual decorations that simulators never produce and that must not matter to (or must be
+    handled by) the code under test; each kind is applied with probability p.  kinds restricts the set.
+    Returns (ts, applied_kinds).  None of them changes the genealogy, the sample set or the mutations' (position,
+    node) pairs except root_mutations (adds mutations above local roots) and permute_nodes (renumbers nodes)."""
+    import tskit
+    import numpy as np
+    applied = []
+    for kind in (kinds or EXOTIC_KINDS):
+        if rng.random() >= p:
+            continue
+        if kind == "extra_flags":
+            ts = extra_flags(rng, ts)
+        elif kind == "permute_nodes":
+            if ts.num_migrations:
+                continue
+            ts = permute_nodes(rng, ts)
+        elif kind == "root_mutations":
+            ts = add_root_mutations(rng, ts)
+        elif kind == "monomorphic_sites":
+            t = ts.dump_tables()
+            used = set(float(x) for x in t.sites.position)
+            free = [x for x in range(int(ts.sequence_length)) if float(x) not in used]
+            rng.shuffle(free)
+            surplus = t.mutations.num_rows - t.sites.num_rows
+            k = surplus if (surplus > 0 and rng.random() < 0.5) else rng.randint(1, 3)
+            for x in free[:k]:
+                t.sites.add_row(position=float(x), ancestral_state="N")
+            t.sort(); t.build_index(); t.compute_mutation_parents()
+            ts = t.tree_sequence()
+        elif kind == "unknown_mutation_times":
+            t = ts.dump_tables()
+            t.mutations.time = np.full(t.mutations.num_rows, tskit.UNKNOWN_TIME)
+            ts = t.tree_sequence()
+        elif kind == "states":
+            t = ts.dump_tables()
+            t.sites.packset_ancestral_state([rng.choice(["A", "C", "", "xyz"]) for _ in range(t.sites.num_rows)])
+            t.mutations.packset_derived_state([rng.choice(["G", "T", "1", "long-allele"]) for _ in range(t.mutations.num_rows)])
+            ts = t.tree_sequence()
+        elif kind == "populations":
+            t = ts.dump_tables()
+            t.populations.clear()
+            t.populations.metadata_schema = tskit.MetadataSchema.permissive_json()
+            kpop = rng.randint(1, 3)
+            for i in range(kpop):
+                t.populations.add_row(metadata={"name": "p%d" % i, "description": None})
+            t.nodes.population = np.array([rng.randrange(kpop) for _ in range(t.nodes.num_rows)], dtype=np.int32)
+            ts = t.tree_sequence()
+        applied.append(kind)
+    return ts, applied
+
+
 def random_times(rng, ts, style=None):
     """arbitrary 'unconstrained' time vector for the nodes of ts"""
     n = ts.num_nodes
